@@ -121,7 +121,6 @@ func (s *serverSocket) upgradeTo(t ServerTransport, c *transport.Callbacks) {
 
 	old := s.transport
 	s.transport = t
-	old.Discard()
 
 	// Get the queued packets from the old transport and send them with the new one.
 	qp := old.QueuedPackets()
@@ -130,6 +129,12 @@ func (s *serverSocket) upgradeTo(t ServerTransport, c *transport.Callbacks) {
 			t.Send(p)
 		}
 	}
+
+	// This is done after the queue was emptied. `Discard` answers the poll request that might
+	// be waiting (with a NOOP packet). The client waits for that answer before it handles the
+	// packets of the new transport. If the NOOP packet was taken out of the queue together
+	// with the queued packets, the poll request would go on waiting.
+	old.Discard()
 }
 
 func (s *serverSocket) pingPong(pingInterval time.Duration, pingTimeout time.Duration) {
